@@ -1,0 +1,164 @@
+// SPDX-License-Identifier: Apache-2.0
+
+//go:build verif
+
+package pfcpiface
+
+// Thin, behaviour-free accessors for the external verification harness (/verif).
+// This file only exists for the compiler when the build tag "verif" is set.
+
+import (
+	"math/rand"
+)
+
+// VerifPortRule is one (value, mask) port match.
+type VerifPortRule struct{ Port, Mask uint16 }
+
+// VerifPortProductRule is one source/destination (value, mask) pair.
+type VerifPortProductRule struct{ SrcPort, SrcMask, DstPort, DstMask uint16 }
+
+// VerifPortRangeExpand exposes portRange.asComplexTernaryMatches for the range [low, high].
+func VerifPortRangeExpand(low, high uint16, strategy int) ([]VerifPortRule, error) {
+	rules, err := portRange{low: low, high: high}.asComplexTernaryMatches(RangeConversionStrategy(strategy))
+	if err != nil {
+		return nil, err
+	}
+
+	out := make([]VerifPortRule, len(rules))
+	for i, r := range rules {
+		out[i] = VerifPortRule{r.port, r.mask}
+	}
+
+	return out, nil
+}
+
+// VerifPortRangeTrivial exposes portRange.asTrivialTernaryMatch.
+func VerifPortRangeTrivial(low, high uint16) (VerifPortRule, error) {
+	r, err := portRange{low: low, high: high}.asTrivialTernaryMatch()
+	return VerifPortRule{r.port, r.mask}, err
+}
+
+// VerifPortRangeProduct exposes CreatePortRangeCartesianProduct.
+func VerifPortRangeProduct(sl, sh, dl, dh uint16) ([]VerifPortProductRule, error) {
+	rules, err := CreatePortRangeCartesianProduct(portRange{low: sl, high: sh}, portRange{low: dl, high: dh})
+	if err != nil {
+		return nil, err
+	}
+
+	out := make([]VerifPortProductRule, len(rules))
+	for i, r := range rules {
+		out[i] = VerifPortProductRule{r.srcPort, r.srcMask, r.dstPort, r.dstMask}
+	}
+
+	return out, nil
+}
+
+// VerifFlow is the parsed form of an IPFilterRule.
+type VerifFlow struct {
+	Action, Direction string
+	Proto             uint8
+	SrcNet, DstNet    string
+	SrcLow, SrcHigh   uint16
+	DstLow, DstHigh   uint16
+}
+
+// VerifParseFlowDesc exposes parseFlowDesc.
+func VerifParseFlowDesc(text, ueIP string) (*VerifFlow, error) {
+	ipf, err := parseFlowDesc(text, ueIP)
+	if err != nil {
+		return nil, err
+	}
+
+	f := &VerifFlow{
+		Action: ipf.action, Direction: ipf.direction, Proto: ipf.proto,
+		SrcLow: ipf.src.ports.low, SrcHigh: ipf.src.ports.high,
+		DstLow: ipf.dst.ports.low, DstHigh: ipf.dst.ports.high,
+	}
+	if ipf.src.IPNet != nil {
+		f.SrcNet = ipf.src.IPNet.String()
+	}
+
+	if ipf.dst.IPNet != nil {
+		f.DstNet = ipf.dst.IPNet.String()
+	}
+
+	return f, nil
+}
+
+// VerifSetSEIDSource replaces the random source of every existing association.
+// Call it only while the agent is idle.
+func (p *PFCPIface) VerifSetSEIDSource(src rand.Source) int {
+	n := 0
+
+	p.node.pConns.Range(func(_, v interface{}) bool {
+		v.(*PFCPConn).rng = rand.New(src) // #nosec G404
+		n++
+
+		return true
+	})
+
+	return n
+}
+
+// VerifTEIDSetCursor places the F-TEID generator's cursor (offset = next id - 1).
+func (p *PFCPIface) VerifTEIDSetCursor(offset uint32) {
+	g := p.upf.fteidGenerator
+	g.lock.Lock()
+	defer g.lock.Unlock()
+	g.offset = offset
+}
+
+// VerifTEIDAllocated reports whether id is marked as allocated, and how many ids are.
+func (p *PFCPIface) VerifTEIDAllocated(id uint32) (bool, int) {
+	g := p.upf.fteidGenerator
+	ok := g.IsAllocated(id)
+	g.lock.Lock()
+	defer g.lock.Unlock()
+
+	return ok, len(g.usedMap)
+}
+
+// VerifPools returns occupancy counters of the UE IP pool and, on UP4, of the ID pools
+// and bookkeeping maps.
+func (p *PFCPIface) VerifPools() map[string]int {
+	out := map[string]int{}
+
+	if ip := p.upf.ippool; ip != nil {
+		ip.mu.Lock()
+		out["ip_free"] = len(ip.freePool)
+		out["ip_held"] = len(ip.inventory)
+		ip.mu.Unlock()
+	}
+
+	g := p.upf.fteidGenerator
+	g.lock.Lock()
+	out["teid_held"] = len(g.usedMap)
+	g.lock.Unlock()
+
+	if u, ok := p.fp.(*UP4); ok && len(u.counters) == 2 && u.counters[0].counterIDsPool != nil {
+		out["ctr_free"] = u.counters[preQosCounterID].counterIDsPool.Cardinality()
+		out["ctr_cap"] = int(u.counters[preQosCounterID].maxSize)
+
+		if u.appMeterCellIDsPool != nil {
+			out["appmeter_free"] = u.appMeterCellIDsPool.Cardinality()
+		}
+
+		if u.sessMeterCellIDsPool != nil {
+			out["sessmeter_free"] = u.sessMeterCellIDsPool.Cardinality()
+		}
+
+		u.tunnelPeerMu.Lock()
+		out["tnlpeer_free"] = len(u.tunnelPeerIDsPool)
+		out["tnlpeer_held"] = len(u.tunnelPeerIDs)
+		u.tunnelPeerMu.Unlock()
+		u.applicationMu.Lock()
+		out["app_free"] = len(u.applicationIDsPool)
+		out["app_held"] = len(u.applicationIDs)
+		u.applicationMu.Unlock()
+		out["meters"] = len(u.meters)
+		out["ue2fseid"] = len(u.ueAddrToFSEID)
+		out["fseid2ue"] = len(u.fseidToUEAddr)
+	}
+
+	return out
+}
